@@ -930,7 +930,7 @@ def flatten_channels(data: Tensor) -> Tensor:
     axis_order = (1, 0) + tuple(range(2, data.ndim))
     transposed = data.permute(axis_order)
     # Flatten: (C, N, D, H, W) -> (C, N * D * H * W)
-    return transposed.view(C, -1)
+    return transposed.reshape(C, -1)
 
 
 def grid_resample(
